@@ -23,7 +23,11 @@ type Interruption struct {
 	Timeout bool // "i/o timeout" instead of io.EOF
 	Mixed   bool // EOF and "i/o timeout" results alternate while the silence lasts
 	Fatal   bool // some other read error: the reader must stop
-	fired   bool
+	// ThenFatal: the EOF / time-out results (at least one) are followed, when the
+	// silence ends, not by data but by some other read error - a device that goes
+	// quiet and then fails.  The reader must stop there.
+	ThenFatal bool
+	fired     bool
 	polls   int
 }
 
@@ -82,13 +86,22 @@ func (r *Source) Read(p []byte) (int, error) {
 	for {
 		if r.active != nil {
 			if r.active.Fatal {
+				// reported once: the reader has to stop on it.  A reader that carries
+				// on regardless finds the device working again (a flaky line), so that
+				// "kept reading after an error that must stop it" shows in what it got.
 				r.Fatals++
+				r.active = nil
 				return 0, ErrFatal
 			}
 			if r.active.Silence < 0 || time.Now().Before(r.silentTo) || !r.active.fired {
 				was := r.active.fired
 				r.active.fired = true
 				r.pollCost()
+				if was && r.active.ThenFatal && r.active.Silence >= 0 && !time.Now().Before(r.silentTo) {
+					r.Fatals++
+					r.active = nil
+					return 0, ErrFatal
+				}
 				if was && r.active.Silence >= 0 && !time.Now().Before(r.silentTo) {
 					// the line came back while this read was waiting: the read returns
 					// data, not a late "nothing there" (an error result always means the
@@ -103,6 +116,11 @@ func (r *Source) Read(p []byte) (int, error) {
 				}
 				r.EOFs++
 				return 0, io.EOF
+			}
+			if r.active.ThenFatal {
+				r.Fatals++
+				r.active = nil
+				return 0, ErrFatal
 			}
 			r.active = nil
 		}
